@@ -1606,7 +1606,7 @@ CATALOGUE = {
     'hexBinary': ['', '0', '00', '0F', '0f', '0fB7', 'ABCDEF', 'abcdef', 'aBcDeF', 'G0', '0G', '0 0', '00 ', ' 00', '0x00', 'FFF', 'FFFF', '0123456789abcdefABCDEF', '\u00e9\u00e9', '00\n', '+1'],
     'base64Binary': ['', 'AA==', 'AAA=', 'AAAA', 'A', 'AA', 'AAA', 'AAAAA', 'A===', 'AA=', 'AB==', 'AAB=', 'AQ==', 'Ag==', 'Aw==', 'AAE=', 'AAI=', 'A A = =', 'A A==', 'AA= =', 'AA ==', 'A  A==', 'AAAA AAAA', 'AAAAAA==', 'AAAA====',
                      '=', '==', '====', 'AA==AAAA', 'AAAA=', 'AAAA==', 'AA==AA==', '-A==', '_w==', '+/+/', 'A\u00e9==', 'QUJD', 'QUJDRA==', 'QUJDREU=', 'Q U J D', 'QUJD ', ' QUJD', 'QQ=Q', 'Zg==', 'Zm8=', 'Zm9v', 'Zm9vYg==', 'Zh==', 'Zm9=',
-                     'AAAAAAA', 'AA=A', 'A=AA', 'AAA=AAAA'],
+                     'AAAAAAA', 'AA=A', 'A=AA', 'AAA=AAAA', '0cy\u3042', 'QUJ\u0144', '\u0141\u0141=='],
     'duration': [],
     'anyURI': [],
     'date': ['2000-02-29', '1900-02-29', '2004-02-29', '2001-02-29', '0400-02-29', '2100-02-29', '2400-02-29', '1600-02-29', '0800-02-29', '1200-02-29', '2000-02-30', '1999-02-28', '1999-02-29',
